@@ -4,6 +4,7 @@ import (
 	"encoding/json"
 	"errors"
 	"fmt"
+	"reflect"
 	"strings"
 
 	stackage "github.com/JesseCoretta/go-stackage"
@@ -38,7 +39,7 @@ func c06Keywords() []namedVal {
 
 func c06Operators() []namedVal {
 	return []namedVal{{"Eq", stackage.Eq}, {"Ge", stackage.Ge}, {"ComparisonOperator(0)", stackage.ComparisonOperator(0)}, {"ComparisonOperator(9)", stackage.ComparisonOperator(9)},
-		{"nil", nil}, {"user(~=,ctx)", userOp{"~=", "ctx"}}, {"user(,ctx)", userOp{"", "ctx"}}, {"user(~=,)", userOp{"~=", ""}}}
+		{"nil", nil}, {"user(~=,ctx)", userOp{"~=", "ctx"}}, {"sliceOp(=~,ctx)", sliceOp{"=~", "ctx"}}, {"user(,ctx)", userOp{"", "ctx"}}, {"user(~=,)", userOp{"~=", ""}}}
 }
 
 // expression constructors (fresh instance per use where identity matters)
@@ -242,7 +243,7 @@ func c06Machine(c *Ctx) *Machine[*condInst] {
 			if got := cd.Keyword(); got != in.kw {
 				bad("Keyword:"+cls, "Keyword()=%q want %q", got, in.kw)
 			}
-			if got := cd.Operator(); got != in.op {
+			if got := cd.Operator(); !reflect.DeepEqual(got, in.op) {
 				bad("Operator:"+cls, "Operator()=%v want %v", got, in.op)
 			}
 			if got := cd.Expression(); got != in.ex {
